@@ -112,6 +112,29 @@ def w11_queries_leave_the_text(prog, ctx):
         ctx.ok("W11", "getters do not edit the stored text", "", "%d (getter, input) pairs with an empty Mod set (= C10.Q1)" % n_ok)
 
 
+def _tag_sources(prog, f, tag):
+    """[(node, source expression node)] of what `f` stores into an object's ->tag: directly, or by handing the value to a constructor of
+    the library that stores that parameter into the tag of the object it creates"""
+    out = []
+    for lhs, rhs, st, kind in query.stores(f):
+        if kind == "=" and lhs.strip().k == "MemberExpr" and lhs.strip().j.get("member") == tag and lhs.strip().j.get("rec") == "econf_file" and rhs is not None:
+            out.append((st, rhs))
+    for c in f.calls():
+        cn = c.j.get("callee")
+        if not cn or cn == f.name or not prog.has_fn(cn):
+            continue
+        g = prog.fn(cn)
+        if g.body is None:
+            continue
+        for pi, q in enumerate(g.params):
+            gs = [(st2, r2) for l2, r2, st2, k2 in query.stores(g) if k2 == "=" and l2.strip().k == "MemberExpr" and l2.strip().j.get("member") == tag
+                  and l2.strip().j.get("rec") == "econf_file" and r2 is not None]
+            if gs and all(r2.strip().k == "DeclRefExpr" and r2.strip().j.get("name") == q["name"] and r2.strip().j.get("dk") == "param" for st2, r2 in gs) \
+                    and pi < len(c.call_args()) and not [1 for l3, r3, s3, k3 in query.stores(g) if render(l3) == q["name"]]:
+                out.append((c, c.call_args()[pi]))
+    return out
+
+
 def w12_merged_objects_are_writable(prog, ctx):
     """W12: the writer emits a section header whenever the section changes and none for the keys without section - those can only be
     written where no header precedes them.  A merged object is written correctly only if the merge keeps its group-less keys in front
@@ -415,8 +438,9 @@ def run(prog, ctx):
         for tag in ("delimiter", "comment"):
             if tag not in nf.param_names():
                 continue
-            ts = [st for lhs, rhs, st, kind in query.stores(nf) if render(lhs).endswith("->%s" % tag) and rhs is not None]
-            okt = [st for st in ts if st.children[1].strip().k == "DeclRefExpr" and st.children[1].strip().j.get("name") == tag]
+            srcs9 = _tag_sources(prog, nf, tag)
+            ts = [st for st, src in srcs9]
+            okt = [st for st, src in srcs9 if src.strip().k == "DeclRefExpr" and src.strip().j.get("name") == tag]
             if ts and len(okt) == len(ts):
                 ctx.ok("W3", "%s records the %s tag it is given" % (fname, tag), ts[0].where, render(ts[0]))
             elif ts:
@@ -429,11 +453,12 @@ def run(prog, ctx):
     m = prog.fn("econf_mergeFiles")
     base = m.params[1]["name"]
     for tag in ("delimiter", "comment"):
-        ms = [st for lhs, rhs, st, kind in query.stores(m) if render(lhs) == "(*merged_file)->%s" % tag]
-        if ms and render(ms[0].children[1]) == "%s->%s" % (base, tag):
-            ctx.ok("W3", "a merged object inherits the base's %s tag" % tag, ms[0].where, render(ms[0]))
+        msrc = _tag_sources(prog, m, tag)
+        ms = [st for st, src in msrc]
+        if msrc and all(render(src) == "%s->%s" % (base, tag) for st, src in msrc):
+            ctx.ok("W3", "a merged object inherits the base's %s tag" % tag, ms[0].where, render(ms[0])[:80])
         else:
-            ctx.fail("W3", "a merged object inherits the base's %s tag" % tag, (ms[0] if ms else m).where, "stores %s" % [render(s) for s in ms], key="merge-tag:%s" % tag)
+            ctx.fail("W3", "a merged object inherits the base's %s tag" % tag, (ms[0] if ms else m).where, "stores %s" % [render(src) for st, src in msrc], key="merge-tag:%s" % tag)
     L = parser.landmarks(prog)
     parser.delimiter_membership_rule(prog, ctx, "W10", L)
     st_fn = L.store_fn
